@@ -297,7 +297,7 @@ Verdict judgeImpl(const Case& c, bool geo, bool gp) {
           c2.Execute(ClipType::Union, rev ? FillRule::Negative : FillRule::Positive, again);
           if (O::canon(again) != O::canon(sol)) {
             if (touching(sol) && sameRegion(sol, again, !gp)) {
-              v.known = "KF-C03-a";
+              if (v.known.empty()) v.known = "KF-C03-a";   // never hides another class hit by the same case
               ST.count("idempotence_redecomposed_touching_paths_same_region");
             } else {
               v.fail("feeding the solution back through Union changes the set of paths" + cfgStr(ct, fr, pc, rev));
@@ -350,6 +350,32 @@ Case genRect() {
   return c;
 }
 
+// exhaustive strict scope: every ordered pair of rectangles of a 4x4-cell lattice (both orientations) as subject and clip,
+// plus every triple (third rectangle as second subject) of the 3x3-cell lattice.  The unchanged tree shows none of the
+// listed deviation classes here, so in this scope a hit of a recogniser is a failure, not a known finding.
+void enumRectPairs(const std::function<void(const Case&)>& f) {
+  auto rectsOf = [](int N, bool bothOrient) {
+    Paths64 rects;
+    for (int x0 = 0; x0 <= N; ++x0) for (int x1 = x0 + 1; x1 <= N; ++x1)
+      for (int y0 = 0; y0 <= N; ++y0) for (int y1 = y0 + 1; y1 <= N; ++y1) {
+        Path64 p = {Point64(2 * x0, 2 * y0), Point64(2 * x1, 2 * y0), Point64(2 * x1, 2 * y1), Point64(2 * x0, 2 * y1)};
+        rects.push_back(p);
+        if (bothOrient) { std::reverse(p.begin(), p.end()); rects.push_back(p); }
+      }
+    return rects;
+  };
+  Paths64 r4 = rectsOf(4, true);
+  for (auto& a : r4) for (auto& b : r4) { Case c; c.p["subj"] = {a}; c.p["clip"] = {b}; f(c); }
+  Paths64 r3 = rectsOf(3, false);
+  for (auto& a : r3) for (auto& b : r3) for (auto& d : r3) { Case c; c.p["subj"] = {a, d}; c.p["clip"] = {b}; f(c); }
+}
+Verdict judgeStrictRect(const Case& c) {
+  Verdict v = judgeImpl(c, true, false);
+  // (KF-C03-a, the re-decomposition of touching paths by a second Union, already occurs with two plain rectangles)
+  if (v.ok && !v.known.empty() && v.known != "KF-C03-a") v.fail("a deviation of class " + v.known + " occurred inside the strictly judged exhaustive scope (the unchanged tree shows none there)");
+  return v;
+}
+
 }  // namespace
 
 int main(int argc, char** argv) {
@@ -358,5 +384,6 @@ int main(int argc, char** argv) {
   H.parts.push_back({"deg", genDeg, judgeDeg, nullptr, true});
   H.parts.push_back({"gp", genGp, judgeGp, nullptr, true});
   H.parts.push_back({"rect", genRect, judgeRect, nullptr, true});
+  H.parts.push_back({"rectpairs", nullptr, judgeStrictRect, enumRectPairs, false});
   return harnessMain(argc, argv, H);
 }
